@@ -561,6 +561,21 @@ static void handler_body(struct thr *t, int kind, ucontext_t *uc)
 	VP_STORE(t->hdepth, d - 1);
 }
 
+/* number of single-step traps a fresh bp thread's first rcu_read_lock() takes from the start of the
+ * stepped region to the library's SIG_BLOCK (learned from earlier episodes; includes the hook call) */
+static uint64_t bpreg_span_max, bpreg_span_last, bpreg_tail_aimed, bpreg_tail_hit;
+/* position-based aiming: let traps pass until the PC is inside urcu_bp_register(), then a random number
+ * more, drawn from the measured number of depth-0 traps between that entry and the SIG_BLOCK */
+static uint64_t bpreg_in_fn_span_last, bpreg_in_fn_span_max, bpreg_in_fn_aimed;
+static __thread volatile int bpreg_aim, bpreg_entered;
+static __thread volatile uint32_t bpreg_aim_after;
+static __thread volatile uint64_t bpreg_entry_d0;
+#if VP_IS_BP
+static uint64_t ep_done;
+#endif
+static __thread volatile uint64_t bpreg_tr0;
+static __thread volatile int bpreg_measuring;	/* volatile: read by the trap handler of the same thread */
+
 static void trap_handler(int sig, siginfo_t *si, void *ucv)
 {
 	int saved_errno = errno;
@@ -586,6 +601,22 @@ static void trap_handler(int sig, siginfo_t *si, void *ucv)
 		errno = saved_errno;
 		return;
 	}
+#if VP_IS_BP
+	if (t->hdepth == 0 && bpreg_measuring && !bpreg_entered) {
+		extern void urcu_bp_register(void);
+		uint64_t pc = (uint64_t) uc->uc_mcontext.gregs[REG_RIP], fn = (uint64_t) (uintptr_t) urcu_bp_register;
+		if (pc >= fn && pc < fn + 0x180) {
+			bpreg_entered = 1;
+			bpreg_entry_d0 = t->traps_d0;
+			if (bpreg_aim)
+				t->trap_skip = bpreg_aim_after;
+		} else if (bpreg_aim) {
+			t->traps_skipped_k++;
+			errno = saved_errno;
+			return;
+		}
+	}
+#endif
 	if (t->hdepth == 0 && t->trap_skip > 0) {
 		t->trap_skip--;
 		t->traps_skipped_k++;
@@ -617,6 +648,15 @@ static void async_handler(int sig, siginfo_t *si, void *ucv)
 		errno = saved_errno;
 		return;
 	}
+#if VP_IS_BP
+	/* position-aimed first-lock episode: the stepped region lasts milliseconds, an asynchronous handler
+	 * would nearly always register the thread before the aimed instruction is reached */
+	if (bpreg_measuring && bpreg_aim && t->hdepth == 0) {
+		t->async_skipped++;
+		errno = saved_errno;
+		return;
+	}
+#endif
 	if (!VP_LOAD(t->sig_ok) || VP_LOAD(g_hviol)) {
 		t->async_skipped++;
 		errno = saved_errno;
@@ -647,6 +687,21 @@ int __wrap_pthread_sigmask(int how, const sigset_t *set, sigset_t *old)
 		unsigned long was = tf_get();
 		if (was) {
 			tf_off();
+			if (bpreg_measuring) {
+				uint64_t span = t->traps_d0 - bpreg_tr0;	/* depth-0 traps only: handler steps do not count */
+				if (span > VP_LOAD(bpreg_span_max) && span < 100000)
+					VP_STORE(bpreg_span_max, span);
+				if (span < 100000)
+					VP_STORE(bpreg_span_last, span);
+				if (bpreg_entered) {
+					uint64_t in_fn = t->traps_d0 - bpreg_entry_d0;
+					VP_STORE(bpreg_in_fn_span_last, in_fn);
+					/* the path is deterministic; lazy binding can only lengthen it: keep the minimum */
+					if (in_fn > 8 && (in_fn < VP_LOAD(bpreg_in_fn_span_max) || !VP_LOAD(bpreg_in_fn_span_max)))
+						VP_STORE(bpreg_in_fn_span_max, in_fn);
+				}
+				bpreg_measuring = 0;
+			}
 			t->mask_suspends++;
 			VP_STORE(t->suspended, 1);
 		}
@@ -1141,7 +1196,7 @@ static void *victim_main(void *arg)
 #if VP_IS_BP
 static long n_episodes;
 static int spawner_done;
-static uint64_t ep_done, ep_first_lock_traps, ep_exit_traps, ep_handler_registered;
+static uint64_t ep_first_lock_traps, ep_exit_traps, ep_handler_registered;
 static size_t bp_baseline_used;
 
 static void *episode_thread(void *arg)
@@ -1161,11 +1216,45 @@ static void *episode_thread(void *arg)
 	 * lands anywhere between the thread's own NULL test and the library's SIG_BLOCK, or after it
 	 * */
 	t->trap_skip = vp_rand_n(&t->rng, 3) ? vp_rand_n(&t->rng, 90) : 0;
+	/* half of the episodes: anywhere in the whole span up to the library's SIG_BLOCK as measured so
+	 * far (the window between a check placed late in urcu_bp_register() and the masking call lies
+	 * hundreds of instructions after the thread's own NULL test: hook call, sigfillset()) */
+	{
+		uint64_t span = VP_LOAD(bpreg_span_max);
+		uint64_t last = VP_LOAD(bpreg_span_last);
+		uint32_t dice = vp_rand_n(&t->rng, 4);
+		if (span > 0 && dice == 0)
+			t->trap_skip = vp_rand_n(&t->rng, (uint32_t) span + 8);
+		else if (last > 0 && dice <= 2) {
+			/* aim at the last instructions before the masking call (the path is the same for
+			 * every fresh thread, so the previous episode's length predicts this one's) */
+			uint32_t back = vp_rand_n(&t->rng, 70);
+			t->trap_skip = last > back ? (uint32_t) (last - back) : 0;
+			bpreg_tail_aimed++;
+		}
+	}
+	bpreg_tr0 = t->traps_d0;
+	bpreg_entered = 0;
+	bpreg_aim = 0;
+	{
+		/* prior of 160 instructions (hook call + sigfillset + the shim's prologue) until an episode
+		 * has measured the real distance */
+		uint64_t in_fn = VP_LOAD(bpreg_in_fn_span_max);
+		if (!in_fn)
+			in_fn = 160;
+		if (vp_rand_n(&t->rng, 2)) {
+			bpreg_aim = 1;
+			bpreg_aim_after = vp_rand_n(&t->rng, (uint32_t) in_fn + 4);
+			bpreg_in_fn_aimed++;
+		}
+	}
+	bpreg_measuring = 1;
 	/* the first rcu_read_lock() of this thread registers it; every instruction up to the
 	 * library's pthread_sigmask(SIG_BLOCK) and from its restore on is an interruption point */
 	step_begin(t, R_BPREG, 1);
 	c19_w_read_lock();
 	step_end(t);
+	bpreg_measuring = 0;	/* registration returned early (a handler registered the thread first): no SIG_BLOCK in this region */
 	if (reg_before)
 		ep_handler_registered++;	/* an asynchronous handler registered the thread first */
 	check_nest(t, 1, "the first rcu_read_lock() of a thread (automatic registration)", R_BPREG);
@@ -1954,6 +2043,11 @@ int main(int argc, char **argv)
 #if VP_IS_BP
 	vp_counter_add("bp_episodes", ep_done);
 	vp_counter_add("bp_episode_first_lock_traps", ep_first_lock_traps);
+	vp_counter_set("bp_first_lock_traps_to_sigblock_max", VP_LOAD(bpreg_span_max));
+	vp_counter_set("bp_first_lock_traps_to_sigblock_last", VP_LOAD(bpreg_span_last));
+	vp_counter_add("bp_first_lock_handler_aimed_at_last_70_instructions", bpreg_tail_aimed);
+	vp_counter_set("bp_register_entry_to_sigblock_traps_min", VP_LOAD(bpreg_in_fn_span_max));
+	vp_counter_add("bp_first_lock_handler_aimed_inside_urcu_bp_register", bpreg_in_fn_aimed);
 	vp_counter_add("bp_episode_total_traps", ep_exit_traps);
 	vp_counter_add("bp_episode_registered_by_async_handler", ep_handler_registered);
 #endif
